@@ -185,7 +185,9 @@ cdef class Explicit_RungeKutta:
                              f"{self.rk_step}")
 
         self.interpolate = bi is not None and self.interpolate
-        if self.interpolate:
+        # The dense output is also used when the option `interpolate` is off:
+        # a step taken with `step=True` can end past the requested time.
+        if bi is not None:
             self.denseout_order = bi.shape[1]
             if bi.shape[0] != self.rk_extra_step:
                 raise ValueError("The interpolation coefficient's shape must "
